@@ -138,7 +138,8 @@ int sbdf_ts_read(FILE* f, sbdf_tablemetadata const* meta, char* subset, sbdf_tab
 		return SBDF_ERROR_OUT_OF_MEMORY;
 	}
 
-	t->columns = calloc(column_count, sizeof(void*));
+	/* allocate what sbdf_ts_add expects for this count */
+	t->columns = calloc(sbdf_calculate_array_capacity(column_count), sizeof(void*));
 	if (!t->columns)
 	{
 		free(t);
